@@ -53,7 +53,7 @@ def _module_job(job):
             programs += 1
             name = f"{mname}:{fn['name']}[{level}/{scope}]"
             ob = compare_pair(res, kf, name + "[typed]", pair, "typed", depth + 1, width, a="silent", b="traced")
-            if fn["params"] and tier != "quick":
+            if fn["params"] and tier != "quick" and (level, scope) == ("verbose", "all") and mname.startswith("corpus/"):
                 compare_pair(res, kf, name + "[anydata]", pair, "anydata", depth, width, a="silent", b="traced")
             if len(res.samples) < 2:
                 res.samples.append({"program": name, "result": ob.detail[:160]})
@@ -72,7 +72,7 @@ def run(tier: str, seed: int, only=None) -> Result:
         "the program quantifier is sampled (corpus); the argument quantifier is decided by z3; traces are ignored by construction",
     ]
     res.bounds = {"data depth": depth, "width": width, "variants": [f"{l}/{s}" for l, s in variants], "baseline": "silent/all",
-                  "thorough": "all variants on corpus/*.ak, verbose/all and compact/all on the acceptance projects"}
+                  "thorough": "all variants on corpus/*.ak (typed; arbitrary Data for verbose/all), verbose/all and compact/all on the acceptance projects (typed)"}
     res.extra["explanation"] = "programs compiled under different Tracing settings compared for all arguments by symbolic execution (z3), disagreements replayed natively"
     res.extra["trusted_base"] = ["uplcsym (symbolic CEK)", "driver drv-lang (real compiler)", "z3 5.1"]
     kf = KnownFindings()
